@@ -3,6 +3,7 @@ from fractions import Fraction as Fr
 import numpy as np
 from .common import guarded, run_model
 from . import randtests as rt
+from .prng import TreeRS
 from .exhaust import designs_stratified, impl_tail, tails
 
 RULE = ("(a) recorded-draw runs of stratified_permutationtest, stratified_two_sample, sim_corr, bivariate_k_sample on "
@@ -16,8 +17,8 @@ LEVEL = ("theorems: pwg_stratum_perm / pwg_perm (values never leave their stratu
          "binomial_count; model validated against stratified.py / ksample.py / irr.py")
 ASSUMPTIONS = ["ideal uniform raw draws", "sum-of-correlations and sum-of-standard-deviations statistics are not rational: the model supplies the "
                "rearrangements, the harness recomputes the documented statistic in doubles (1e-9)",
-               "uniformity over products of within-stratum orders follows from fy_uniform applied stratum by stratum; the product "
-               "statement itself is checked by exhaustive enumeration, not proved"]
+               "uniformity over products of within-stratum orders: Uniform2.pwg_injective / pwg_surjective (the draw tuples are in "
+               "bijection with the products of within-stratum orders) for duplicate-free data; also checked by exhaustive enumeration"]
 
 
 def run(ctx):
@@ -41,6 +42,16 @@ def run(ctx):
                 ctx.violation("oracle", {"design": name, "alternative": alt,
                                          "issue": "hit probability over the whole choice space differs from the exact within-stratum permutation tail",
                                          "implementation": str(got), "exact": str(exact), "leaves": leaves}, site=site)
+            # the same design driven by a scripted generator of type numpy RandomState (code that branches on the generator's type)
+            try:
+                got_rs, _, leaves_rs, _ = impl_tail(call, alt, 1, cls=TreeRS)
+            except RuntimeError as ex:
+                ctx.violation("oracle", {"design": name, "alternative": alt, "generator": "RandomState-typed scripted generator", "issue": str(ex)}, site=site); continue
+            ctx.count("exhaustive-designs-randomstate"); ctx.count("exhaustive-leaves", leaves_rs)
+            if got_rs != exact:
+                ctx.violation("oracle", {"design": name, "alternative": alt, "generator": "RandomState-typed scripted generator",
+                                         "issue": "hit probability over the whole choice space differs from the exact permutation tail",
+                                         "implementation": str(got_rs), "exact": str(exact), "leaves": leaves_rs}, site=site)
     ctx.block("exhaustive-choice-space", len(ctx.violations) == ok_before, len(designs))
     ops, meta = rt.run_recorded(ctx, rt.STRAT, ctx.n(90, 1500))
     # the same array objects refilled in place between calls (a simulation loop over preallocated buffers)
